@@ -244,6 +244,19 @@ class C04(Oracle):
             return
         if ag["id"] in self.terminated:
             ctx.fail("C04", "credit-set", "%s: crediting resumed after the schedule had ended" % k)
+        if self.lenient and (len(changed) != 1 or not same_point(changed[0].get_cpoint(), p)):
+            # infrastructure mode: the library booked this reward somewhere else than on the cell it handed out.  The
+            # ledger follows the truth of the history (the reward was observed at the point returned by pull) whenever
+            # that cell is unambiguous; where the library booked it is C04's own business.
+            cands = [n for key, (ev, n) in now.items() if same_point(n.get_cpoint(), p)]
+            if len(cands) == 1:
+                led = self.led(cands[0])
+                led.list.append(r)
+                led.count += 1
+                credit["target"] = cands[0]
+                credit["cells"] = [cands[0]]
+                ctx.stats["ledger-library-booked-elsewhere"] += 1
+                return
         if len(changed) != 1:
             ctx.fail("C04", "credit-set", "%s: %d cells changed in one round (%s), expected exactly the pulled one" % (
                 k, len(changed), ",".join(self.name(ag, n) for n in changed[:4])))
